@@ -7,6 +7,7 @@ LEVEL = "Bounded symbolic model checking of the implementation: the real functio
 TRUST = "Trusted: the shims in /verif/symx (numpy/pandas/file-system/RNG/joblib contracts of DESIGN.md section 1.3, differentially validated against the real libraries on sampled paths at every run), z3, float = mathematical real, typeguard/numba made transparent."
 CHECKS = {
  "C01": ("section 2 C01", "N <= 4 (quick) / 5 (thorough) PSMs; score dtypes float/int; label dtypes bool/int/float; both directions; symbolic eval_fdr. " + TRUST),
+ "C10": ("section 2 C10", "K1 create_chunks_with_identifier/create_chunks with a feature list of symbolic length 1..60, 2..5 identifier columns, symbolic chunk size 2..64 (<= 10-12 chunks); K2 find_column family over casings/orders/duplicates; K3 convert_targets_column for labels in -3..3 and bool; K4 NaN scan with a symbolic NaN bit per cell; K5 read_percolator composed on a VFS table (text and Parquet suffix, <= 2 rows x <= 2 features quick, more in thorough; column/row scan chunk sizes symbolic). pandas.read_csv / pyarrow decoding trusted; replay goes through the real read_pin on real files. " + TRUST),
  "C11": ("section 2 C11", "dataset.calibrate_scores and OnDiskPsmDataset.calibrate_scores (targets read from a VFS file, encodings 1/-1, 1/0, bool) on N <= 4 (quick) / 5 (thorough) PSMs, symbolic scores/targets/eval_fdr; premise: >= 1 decoy and lowest accepted target strictly above the decoy median; real tdc for N <= 3, above that q-values constrained by the C01 formula. The per-fold application inside brew._predict is an obligation of the C02 harness. " + TRUST),
  "C12": ("section 2 C12", "Model.fit / predict with a recording estimator on N <= 3, 2 iterations (quick) / N <= 4, 3 iterations (thorough): arbitrary RNG permutation, shuffle symbolic, symbolic labels/features/train_fdr/estimator scores; tdc replaced by q-values constrained by the C01 formula (C01 discharges it). The pickle round trip is outside. " + TRUST),
  "C13": ("section 2 C13", "tables of N <= 4 (quick) / 6 (thorough) rows x 3 columns (numeric, string, bool), chunk size 1..N+1, five column subsets/orders, every split of the rows into appends, buffer size 2..N, buffer kinds DataFrame and Dicts. The REAL reader/writer classes run; pandas.read_csv / to_csv / pyarrow are VFS-backed contracts (codecs trusted, batch/column-order contract probed on the installed pyarrow). TableType.Records and the sqlite writer are outside. " + TRUST),
